@@ -121,7 +121,7 @@ CHECKS = {
         "design_ref": "DESIGN.md section 5/C05",
         "engine": "E2 simsched",
         "technique": "deterministic simulation: seeded lock-granularity schedules of 2-3 client threads; recorded invoke/return history checked per document against a sequential register with a WGL-style linearizability search",
-        "rule": "programs = 2-3 threads x 2-4 operations {insert/overwrite with a globally unique (vector, metadata) pair, delete, query, bulk_query, get_document_with_metadata, "
+        "rule": "programs = 2-3 client threads (in a third of the programs plus a drainer thread issuing 1-2 forced drains of the recent-write tier) x 2-4 operations {insert/overwrite with a globally unique (vector, metadata) pair, delete, query, bulk_query, get_document_with_metadata, "
                 "get_embedding_cache_aware, exists} on 1-2 shared ids after a 0-3 operation warm-up, against one TieredEngine (cache capacity 1-8, hot hard limit 1-200 so drains interleave, "
                 "all cache strategies, with and without persistence); 16 seeded schedules per program (random walk, sticky walk, PCT d<=3, bounded preemption); half of the programs end "
                 "with a forced drain, all end with quiescent reads of every id through every flavour. evaluations = histories checked. distinct_nontrivial = distinct decision-trace "
@@ -314,7 +314,7 @@ CHECKS = {
                 "full backups and incremental backups on the latest backup / latest full / an arbitrary earlier backup; crash steps (the data directory is journaled: the directory is rebuilt as of 0-24 storage effects before the end, never before the latest backup, kill or torn inside the write it dies in, file times as of the last effect per file; half of the time a full backup of the directory as the crash left it, expected collection = what the following start gives); operations (insert / delete / snapshot / engine start, a failed start being followed by a fault-free one) under failing storage calls as in C03 (only the backups taken afterwards are judged; in a history with a fired fault a backup may equal the live census or what a start from a copy of the source gives); backend and tiered engines, fsync always. Expected collection of a backup = live census when it was taken. Judged: (1) every backup (first 8) restored into an empty directory, engine started (strict recovery), census == expected; "
                 "(2) point-in-time targets at every backup timestamp and +-1 s: census equals an eligible backup (rooted in a newest full backup <= target, chain <= target, not superseded by a strictly newer eligible child), refusal only when no full backup is old enough; "
                 "(3) a refused incremental ('No new WAL files') only when the live census still equals the parent's; (4) non-empty target without confirmation: refused and byte-identical; dry run: byte-identical; "
-                "(5) 24 (60 thorough) damages of a chain's archive or metadata file (1/6 truncations at 0 / len-1 / len/2 / random, else one bit flipped at a structural offset (first 48 bytes) or a random offset), restore with confirmation into a populated target: refused with the target byte-identical, or accepted with census == expected. "
+                "(5) [a third of the damaged chains go through the point-in-time entry point, accepted restores then compared with every backup's collection; the restore of a damaged chain runs in a forked child and a killed child counts as accepted damage] 24 (60 thorough) damages of a chain's archive or metadata file (1/6 truncations at 0 / len-1 / len/2 / random, else one bit flipped at a structural offset (first 48 bytes) or a random offset), restore with confirmation into a populated target: refused with the target byte-identical, or accepted with census == expected. "
                 "1 of 5 runs: 2-9 (2-14 thorough) synthetic backups (ages across minute/hour/day/week/month boundaries, chains and branches) x retention policy from {0,1,2,24} h x {0,1,7} d x {0,1,4} w x {0,1,12} m x min age {0,1,30} d at a simulated now: after prune_backups every retained backup still has its whole parent chain and nothing younger than the minimum age is gone. "
                 "evaluations = restores + prunes judged. distinct_nontrivial = distinct (backup kinds, collection sizes) digests.",
         "assumptions": ["backups are taken while the engine is idle but open (fsync always), as the kyrodb_backup binary does against a running server's directory", "S3 upload/download and the CLI argument parsing are not exercised",
